@@ -59,6 +59,9 @@ CLAIMED = {
     "C19": ("exploration",
             "Generated template sets (helpers, layouts, views with define names overlapping across layers and views) in a memfs and request sequences Base / Layout / View for the HTML and the text provider; sequential shape: cached and uncached providers side by side, every name rendered and compared with the layering rule (most specific layer wins, foreign views' and views' definitions invisible where they must be, asking twice agrees); concurrent shape: 2-5 tasks use one cached provider from its first use on under the seeded scheduler, all must get equivalent templates, no panic, and the happens-before probe must see no unsynchronised access to the cache maps.",
             "Sampling. The map probe replaces the Go runtime's own concurrent-map check, which cannot fire under serialised execution; races on plain pointers (the unlocked baseTemplate read) are outside its reach."),
+    "C20": ("exploration",
+            "Loader clause only: translation files with prefix-free dotted keys and values over quotes, backslashes, control and non-ASCII characters, written by encoding/json or by the library's emitter into random directory layouts of a memfs (plus decoys and empty directories); fsi18loader.Load runs its real fsloop under the seeded scheduler with MaxJob 1-4, I/O latency and optionally one injected read error; Load returned nil => every key of every file translates to the value the standard JSON decoder yields for the written bytes; an injected fault => error reported or everything loaded; happens-before probe on the translation map.",
+            "Sampling. The flatten/rebuild and emitter round-trip clauses are pure functions: exercised only where they lie on the loader path and not claimed (DESIGN.md section 5)."),
 }
 
 NOT_APPLICABLE = {
